@@ -12,10 +12,9 @@
 // See the License for the specific language governing permissions and
 // limitations under the License.
 
-use std::{
-    borrow::Borrow,
-    collections::{HashMap, HashSet},
-};
+use std::{borrow::Borrow, collections::HashSet};
+
+use indexmap::IndexMap;
 
 #[cfg(not(feature = "python"))]
 use optipy::strip_pyo3;
@@ -25,6 +24,10 @@ use pyo3_stub_gen::derive::{gen_stub_pyclass, gen_stub_pymethods};
 use crate::instruction::{FrameAttributes, FrameDefinition, FrameIdentifier, Instruction, Qubit};
 
 /// A collection of Quil frames (`DEFFRAME` instructions) with utility methods.
+///
+/// Frames maintain insertion order: iteration, [`FrameSet::to_instructions`] and therefore the
+/// serialized program list them in the order in which each identifier was first inserted, and
+/// re-inserting an existing identifier replaces its attributes in place.
 #[derive(Clone, Debug, Default, PartialEq, Eq)]
 #[cfg_attr(feature = "stubs", gen_stub_pyclass)]
 #[cfg_attr(
@@ -32,7 +35,7 @@ use crate::instruction::{FrameAttributes, FrameDefinition, FrameIdentifier, Inst
     pyo3::pyclass(module = "quil._quil.program", eq, from_py_object)
 )]
 pub struct FrameSet {
-    pub(crate) frames: HashMap<FrameIdentifier, FrameAttributes>,
+    pub(crate) frames: IndexMap<FrameIdentifier, FrameAttributes>,
 }
 
 impl FrameSet {
@@ -122,7 +125,7 @@ impl FrameSet {
     }
 
     /// Iterate through the contained frames.
-    pub fn iter(&self) -> std::collections::hash_map::Iter<'_, FrameIdentifier, FrameAttributes> {
+    pub fn iter(&self) -> indexmap::map::Iter<'_, FrameIdentifier, FrameAttributes> {
         self.frames.iter()
     }
 
